@@ -258,6 +258,7 @@ type World struct {
 	lastGid  int
 	finePts  int
 
+	baseGor     int
 	fired       []bool
 	tokNames    map[string]string
 	harnessBusy bool
